@@ -50,7 +50,7 @@ func init() {
 	subcmds["fuserw"] = fuserwReplay
 }
 
-type frNode struct {
+type fwNode struct {
 	N int    `json:"n"`
 	K string `json:"k"` // "dir" | "file"
 	L bool   `json:"l"` // linked (in the tree); false: orphan still held by the kernel
@@ -59,7 +59,7 @@ type frNode struct {
 	C int    `json:"c"` // kernel lookup count
 }
 
-type frStep struct {
+type fwStep struct {
 	O    string   `json:"o"`
 	P    int      `json:"p"`
 	A    string   `json:"a"`
@@ -71,10 +71,10 @@ type frStep struct {
 	Cls  string   `json:"cls"`
 	Al   []string `json:"al"`
 	R    int      `json:"r"`
-	Post []frNode `json:"post"`
+	Post []fwNode `json:"post"`
 }
 
-func (s frStep) String() string {
+func (s fwStep) String() string {
 	switch s.O {
 	case "rename":
 		return fmt.Sprintf("rename(n%d/%s -> n%d/%s)", s.P, s.A, s.Q, s.B)
@@ -92,18 +92,18 @@ func (s frStep) String() string {
 	}
 }
 
-var frErrnoNames = map[syscall.Errno]string{
+var fwErrnoNames = map[syscall.Errno]string{
 	syscall.ENOENT: "ENOENT", syscall.EEXIST: "EEXIST", syscall.ENOTEMPTY: "ENOTEMPTY", syscall.ENOTDIR: "ENOTDIR",
 	syscall.EISDIR: "EISDIR", syscall.EPERM: "EPERM", syscall.EINVAL: "EINVAL", syscall.ENOSYS: "ENOSYS",
 	syscall.EIO: "EIO", syscall.EACCES: "EACCES", syscall.EBUSY: "EBUSY", syscall.EXDEV: "EXDEV",
 }
 
-func frOutcome(err error) string {
+func fwOutcome(err error) string {
 	if err == nil {
 		return "ok"
 	}
 	if e, ok := err.(syscall.Errno); ok {
-		if n, ok := frErrnoNames[e]; ok {
+		if n, ok := fwErrnoNames[e]; ok {
 			return n
 		}
 		return fmt.Sprintf("errno(%d)", int(e))
@@ -111,26 +111,26 @@ func frOutcome(err error) string {
 	return "error: " + err.Error()
 }
 
-// frByte is the byte at absolute offset k of a cell stored by write w (never 0);
+// fwByte is the byte at absolute offset k of a cell stored by write w (never 0);
 // cells with id 0 are zero bytes (holes, extension by truncate).
-func frByte(seed uint64, w int, k int) byte {
+func fwByte(seed uint64, w int, k int) byte {
 	if w == 0 {
 		return 0
 	}
 	return byte(1 + splitmix(seed^(uint64(w)*0x9e3779b97f4a7c15+uint64(k)))%255)
 }
 
-func frContent(seed uint64, cells []int, unit int) []byte {
+func fwContent(seed uint64, cells []int, unit int) []byte {
 	out := make([]byte, len(cells)*unit)
 	for j, w := range cells {
 		for k := j * unit; k < (j+1)*unit; k++ {
-			out[k] = frByte(seed, w, k)
+			out[k] = fwByte(seed, w, k)
 		}
 	}
 	return out
 }
 
-type frRun struct {
+type fwRun struct {
 	r      *vutil.BehResult
 	fs     fuseutil.FileSystem
 	ctx    context.Context
@@ -144,11 +144,11 @@ type frRun struct {
 	halted bool
 }
 
-func (m *frRun) bad(what string, exp, got interface{}, detail string, stop bool) {
+func (m *fwRun) bad(what string, exp, got interface{}, detail string, stop bool) {
 	m.badSig("fuserw/"+m.cls+"/"+what, exp, got, detail, stop)
 }
 
-func (m *frRun) badSig(sig string, exp, got interface{}, detail string, stop bool) {
+func (m *fwRun) badSig(sig string, exp, got interface{}, detail string, stop bool) {
 	m.r.Mismatches = append(m.r.Mismatches, vutil.Mismatch{Beh: m.r.I, Step: m.step, Op: m.cls, Sig: sig, Expected: exp, Got: got,
 		Detail: detail, Replay: append([]string{}, m.prog...)})
 	if stop {
@@ -159,20 +159,20 @@ func (m *frRun) badSig(sig string, exp, got interface{}, detail string, stop boo
 // call runs one file system operation; a panic of the calling goroutine (which
 // would take the whole mount down: the fuse server does not recover) is a
 // mismatch "fuserw/<class>/panic/<frame>".
-func (m *frRun) call(f func() error) (out string, panicked bool) {
+func (m *fwRun) call(f func() error) (out string, panicked bool) {
 	defer func() {
 		if e := recover(); e != nil {
 			panicked = true
-			sig := frPanicSig(string(debug.Stack()))
+			sig := fwPanicSig(string(debug.Stack()))
 			m.bad(sig, "no crash", fmt.Sprint(e), "the operation panicked; in a mounted file system this kills the server process", true)
 		}
 	}()
-	return frOutcome(f()), false
+	return fwOutcome(f()), false
 }
 
-// frPanicSig is "panic/<first frame inside datamon>", wherever the source tree
+// fwPanicSig is "panic/<first frame inside datamon>", wherever the source tree
 // of the repository under verification lives.
-func frPanicSig(stack string) string {
+func fwPanicSig(stack string) string {
 	for _, l := range strings.Split(stack, "\n") {
 		if strings.HasPrefix(l, "github.com/oneconcern/datamon/") {
 			if j := strings.LastIndex(l, "("); j > 0 {
@@ -195,7 +195,7 @@ func inSet(s []string, x string) bool {
 
 // doStep performs the operation of a step and returns the outcome and, for
 // entry replies, the entry.
-func (m *frRun) doStep(st frStep) (out string, entry *fuseops.ChildInodeEntry, panicked bool) {
+func (m *fwRun) doStep(st fwStep) (out string, entry *fuseops.ChildInodeEntry, panicked bool) {
 	fs, ctx := m.fs, m.ctx
 	switch st.O {
 	case "create":
@@ -228,7 +228,7 @@ func (m *frRun) doStep(st frStep) (out string, entry *fuseops.ChildInodeEntry, p
 		in := m.ino[st.N]
 		data := make([]byte, st.Y*m.unit)
 		for k := range data {
-			data[k] = frByte(m.seed, m.step+1, st.X*m.unit+k)
+			data[k] = fwByte(m.seed, m.step+1, st.X*m.unit+k)
 		}
 		out, panicked = m.call(func() error {
 			oo := &fuseops.OpenFileOp{Inode: in}
@@ -269,7 +269,7 @@ func kindOfMode(mode os.FileMode) string {
 }
 
 // checkReply judges an entry reply about model node st.R.
-func (m *frRun) checkReply(st frStep, entry *fuseops.ChildInodeEntry, post map[int]frNode) {
+func (m *fwRun) checkReply(st fwStep, entry *fuseops.ChildInodeEntry, post map[int]fwNode) {
 	got := entry.Child
 	node := post[st.R]
 	if got == 0 {
@@ -304,7 +304,7 @@ func (m *frRun) checkReply(st frStep, entry *fuseops.ChildInodeEntry, post map[i
 }
 
 // checkHeld asks for the attributes of every inode the kernel holds.
-func (m *frRun) checkHeld(st frStep, post map[int]frNode) {
+func (m *fwRun) checkHeld(st fwStep, post map[int]fwNode) {
 	nodes := make([]int, 0, len(m.ino))
 	for n := range m.ino {
 		nodes = append(nodes, n)
@@ -338,7 +338,7 @@ func (m *frRun) checkHeld(st frStep, post map[int]frNode) {
 			return
 		}
 		if touched && node.K == "file" && (st.O == "write" || st.O == "setsize") && len(node.D) > 0 {
-			exp := frContent(m.seed, node.D, m.unit)
+			exp := fwContent(m.seed, node.D, m.unit)
 			rd := &fuseops.ReadFileOp{Inode: m.ino[n], Offset: 0, Size: int64(len(exp)), Dst: make([]byte, len(exp))}
 			out, panicked := m.call(func() error { return m.fs.ReadFile(m.ctx, rd) })
 			if panicked {
@@ -356,19 +356,19 @@ func (m *frRun) checkHeld(st frStep, post map[int]frNode) {
 	}
 }
 
-// frBehTimeout: a behaviour takes milliseconds of CPU; the only way to spend much
+// fwBehTimeout: a behaviour takes milliseconds of CPU; the only way to spend much
 // longer is a deadlock or an endless loop of the code under test. The mount
 // opens its backing files with O_SYNC and syncs them on flush, so on a busy disk
 // a long program can take seconds: the default is generous.
-var frBehTimeout = 60 * time.Second
+var fwBehTimeout = 60 * time.Second
 
 // finalWalk looks every entry of the specification's final tree up, parents
 // first, as a kernel walking the whole mount would: the visible tree before the
 // commit. These are ordinary lookups (same classes and checks as the lookups of
 // the program); since every live entry is then held, the inode numbers of all
 // live entries are compared with each other.
-func (m *frRun) finalWalk(step int, tree map[int]frNode) {
-	var nodes []frNode
+func (m *fwRun) finalWalk(step int, tree map[int]fwNode) {
+	var nodes []fwNode
 	for _, n := range tree {
 		if n.L {
 			nodes = append(nodes, n)
@@ -394,7 +394,7 @@ func (m *frRun) finalWalk(step int, tree map[int]frNode) {
 		if m.cnt[n.N] > 0 {
 			held = "-held"
 		}
-		st := frStep{O: "lookup", P: byPath[parent], A: name, N: -1, R: n.N, Cls: "lookup-" + n.K + held, Al: []string{"ok"}}
+		st := fwStep{O: "lookup", P: byPath[parent], A: name, N: -1, R: n.N, Cls: "lookup-" + n.K + held, Al: []string{"ok"}}
 		m.step, m.cls = step, st.Cls
 		m.prog = append(m.prog, "final walk: "+st.String())
 		got, entry, panicked := m.doStep(st)
@@ -413,7 +413,7 @@ func (m *frRun) finalWalk(step int, tree map[int]frNode) {
 	}
 }
 
-func frTrivial(cls string) bool {
+func fwTrivial(cls string) bool {
 	return cls == "create-new" || cls == "mkdir-new" || cls == "write-linked" || strings.HasPrefix(cls, "truncate-") && strings.HasSuffix(cls, "-linked")
 }
 
@@ -429,7 +429,7 @@ func fuserwReplay(args []string) error {
 	verbose := fl.Bool("v", false, "print every step (investigation)")
 	behTimeout := fl.Int("beh-timeout", 60, "seconds without progress after which a behaviour counts as hung")
 	_ = fl.Parse(args)
-	frBehTimeout = time.Duration(*behTimeout) * time.Second
+	fwBehTimeout = time.Duration(*behTimeout) * time.Second
 	if *maxBad > 0 {
 		vutil.MaxBadBehaviours = *maxBad
 	}
@@ -443,7 +443,7 @@ func fuserwReplay(args []string) error {
 	units := []int{1, 7, *lambda/2 + 1} // bytes per content cell, by behaviour: up to ~3.5 leaves per file
 
 	run := func(i int, line []byte, r *vutil.BehResult) {
-		var steps []frStep
+		var steps []fwStep
 		if err := json.Unmarshal(line, &steps); err != nil {
 			panic(err)
 		}
@@ -462,17 +462,17 @@ func fuserwReplay(args []string) error {
 		if err != nil {
 			panic(err)
 		}
-		m := &frRun{r: r, fs: mfs.VerifFileSystem(), ctx: context.Background(), seed: *seed + uint64(i)*7919, unit: units[i%len(units)],
+		m := &fwRun{r: r, fs: mfs.VerifFileSystem(), ctx: context.Background(), seed: *seed + uint64(i)*7919, unit: units[i%len(units)],
 			ino: map[int]fuseops.InodeID{0: fuseops.RootInodeID}, cnt: map[int]int{0: 1}, cls: "init"}
-		last := map[int]frNode{}
+		last := map[int]fwNode{}
 		for j, st := range steps {
 			r.Steps++
 			m.step, m.cls = j, st.Cls
 			m.prog = append(m.prog, st.String())
-			if !frTrivial(st.Cls) {
+			if !fwTrivial(st.Cls) {
 				r.Nontrivial = true
 			}
-			post := map[int]frNode{}
+			post := map[int]fwNode{}
 			for _, n := range st.Post {
 				post[n.N] = n
 			}
@@ -525,7 +525,7 @@ func fuserwReplay(args []string) error {
 		if !m.halted {
 			m.step, m.cls = len(steps), "commit"
 			m.prog = append(m.prog, "commit")
-			frCommit(m, e, mfs, bundle, last)
+			fwCommit(m, e, mfs, bundle, last)
 		}
 		if len(r.Mismatches) > 1 {
 			// a wrong errno does not stop a behaviour: keep each signature once
@@ -546,7 +546,7 @@ func fuserwReplay(args []string) error {
 
 	// child: the parent tells which chunk file it is working on
 	if os.Getenv("VH_CHILD") != "" {
-		return vutil.Isolated("fuserw", os.Getenv("VH_FUSERW_IN"), nil, run, frBehTimeout)
+		return vutil.Isolated("fuserw", os.Getenv("VH_FUSERW_IN"), nil, run, fwBehTimeout)
 	}
 
 	// parent: rounds of at most *chunk behaviours (vutil.Isolated gives up after
@@ -568,7 +568,7 @@ func fuserwReplay(args []string) error {
 		}
 		_ = os.Setenv("VH_FUSERW_IN", cf)
 		part := vutil.NewResult("fuserw")
-		err := vutil.Isolated("fuserw", cf, part, run, frBehTimeout)
+		err := vutil.Isolated("fuserw", cf, part, run, fwBehTimeout)
 		_ = os.Remove(cf)
 		if err != nil {
 			return err
@@ -587,7 +587,7 @@ func fuserwReplay(args []string) error {
 			mm.Beh += from
 			if mm.Replay == nil && mm.Beh < len(lines) {
 				// a child death: the program that was running
-				var steps []frStep
+				var steps []fwStep
 				if json.Unmarshal(lines[mm.Beh], &steps) == nil {
 					var prog []string
 					for _, s := range steps {
@@ -618,13 +618,13 @@ func fuserwReplay(args []string) error {
 	return res.Write(*out)
 }
 
-// frCommit commits the mount, downloads the bundle and compares it with the
+// fwCommit commits the mount, downloads the bundle and compares it with the
 // files of the specification's tree.
-func frCommit(m *frRun, e *metaEnv, mfs *dfuse.MutableFS, bundle *core.Bundle, tree map[int]frNode) {
+func fwCommit(m *fwRun, e *metaEnv, mfs *dfuse.MutableFS, bundle *core.Bundle, tree map[int]fwNode) {
 	exp := map[string][]byte{}
 	for _, n := range tree {
 		if n.L && n.K == "file" {
-			exp[n.P] = frContent(m.seed, n.D, m.unit)
+			exp[n.P] = fwContent(m.seed, n.D, m.unit)
 		}
 	}
 	out, panicked := m.call(func() error { return mfs.Commit() })
